@@ -329,6 +329,9 @@ func (e *Engine) pruneInlined(s ast.Node, in []*State) []*State {
 type InlinePure struct{}
 
 func (InlinePure) Inline(e *Engine, call *ast.CallExpr, callee *types.Func, decl *ast.FuncDecl) bool {
+	if inlineClosure(e, decl) {
+		return true
+	}
 	return e.pureModuleFunc(callee) && smallBody(decl)
 }
 
@@ -337,6 +340,12 @@ type InlineAll struct{}
 
 func (InlineAll) Inline(e *Engine, call *ast.CallExpr, callee *types.Func, decl *ast.FuncDecl) bool {
 	return smallBody(decl)
+}
+
+// inlineClosure: a local closure is always worth interpreting in place (what it does to the variables it captures
+// happens exactly there).
+func inlineClosure(e *Engine, decl *ast.FuncDecl) bool {
+	return e.P.isClosureDecl(decl) && smallBody(decl)
 }
 
 func (e *Engine) pureModuleFunc(fn *types.Func) bool {
@@ -481,6 +490,9 @@ type InlinePredicates struct{}
 var atomFunctions = map[string]bool{"isNotFound": true, "IsInteger": true, "IsValid": true, "canAttachSort": true, "isAlpha": true, "isDigit": true, "isHexDigit": true, "operatorPrecedence": true}
 
 func (InlinePredicates) Inline(e *Engine, call *ast.CallExpr, callee *types.Func, decl *ast.FuncDecl) bool {
+	if inlineClosure(e, decl) {
+		return true
+	}
 	if atomFunctions[fnName(callee)] || !e.pureModuleFunc(callee) || !smallBody(decl) {
 		return false
 	}
